@@ -809,6 +809,9 @@ func (tr *Tr) ret(fr *frame, rs []Val, pos token.Pos) {
 func (tr *Tr) frameCheck(fr *frame, env *specEnv, pos token.Pos) {
 	C := tr.C
 	allowed := tr.assignTargets(fr, fr.contract, tr.entryEnv(fr))
+	if star := allowed["*"]; star != nil && star.all {
+		return // assigns *: no frame is claimed
+	}
 	var ks []string
 	for k := range fr.heap.m {
 		ks = append(ks, k)
@@ -940,7 +943,7 @@ func (tr *Tr) assignTargets(fr *frame, c *Contract, env *specEnv) map[string]*as
 			}
 		case isGhostTarget(tr.G, a):
 			i := strings.Index(a, "(")
-			gm := tr.G.contracts.Ghosts[a[:i]]
+			gm := tr.G.contracts.Ghosts[ghostTargetName(tr.G, a)]
 			s, err := parseSpec(a[i+1 : len(a)-1])
 			if err != nil {
 				vfail("assigns %s: %v", a, err)
@@ -1061,12 +1064,25 @@ func (tr *Tr) assignTargets(fr *frame, c *Contract, env *specEnv) map[string]*as
 	return out
 }
 
-func isGhostTarget(g *Global, a string) bool {
+// ghostTargetName: for an assigns target `name(x)` or `pkg.name(x)` naming a declared ghost map,
+// the bare ghost name ("" otherwise).
+func ghostTargetName(g *Global, a string) string {
 	i := strings.Index(a, "(")
 	if i <= 0 || !strings.HasSuffix(a, ")") {
-		return false
+		return ""
 	}
-	return g.contracts.Ghosts[a[:i]] != nil
+	n := a[:i]
+	if j := strings.LastIndex(n, "."); j >= 0 {
+		n = n[j+1:]
+	}
+	if g.contracts.Ghosts[n] != nil {
+		return n
+	}
+	return ""
+}
+
+func isGhostTarget(g *Global, a string) bool {
+	return ghostTargetName(g, a) != ""
 }
 
 func (tr *Tr) fieldKeyByName(env *specEnv, s string) (string, error) {
